@@ -36,6 +36,7 @@ var baseLambdas = []string{
 	`"a" + 1 > 2 AND ("b" =~ /x\/y/ OR !"c")`,
 	`if("v" % 2 == 0, strSubstring('abc', 0, 1), 'x') != 'a'`,
 	`-1.5e3 * float("x") / 10 <= sigma("y") - 2h`,
+	`"x" >= 1 AND FALSE OR "y" !~ /z/ AND "d" < 1ms OR TRUE`,
 }
 
 var mutTokens = []string{
@@ -315,6 +316,7 @@ func generate(f kit.Flags) [][]string {
 	for _, d := range varsDocs {
 		cases = append(cases, []string{"json vars " + kit.Esc(d)})
 	}
+	cases = append(cases, []string{"udfwrite i f s b"}, []string{"udfwrite i d i"}, []string{"udfwrite n i"}, []string{"udfwrite t u i"})
 
 	// (2) ALL strings over the alphabet up to length 3 (quick) / 4 (thorough); the longest length is
 	// sharded over the parallel seed runs
@@ -375,6 +377,14 @@ func generate(f kit.Flags) [][]string {
 				cases = append(cases, []string{"json vars " + kit.Esc(mutateJSON(r, kit.Pick(r, varsDocs)))})
 			}
 		case 6:
+			if r.Chance(1, 4) {
+				var ks []string
+				for j := 1 + r.Intn(5); j > 0; j-- {
+					ks = append(ks, kit.Pick(r, []string{"i", "f", "s", "b", "d", "n", "t", "u", "i", "f"}))
+				}
+				cases = append(cases, []string{"udfwrite " + strings.Join(ks, " ")})
+				break
+			}
 			cases = append(cases, []string{"udfsrv " + strings.Join(genUDFSeq(r), " ")})
 		case 7:
 			b := genUDFBytes(r)
